@@ -335,7 +335,13 @@ impl fmt::Display for FunctionDefinition {
         if self.has_keyword {
             f.write_str("function ")?;
         }
-        write!(f, "{}() {}", self.name, self.body)
+        self.name.fmt(f)?;
+        // This space is to prevent the `$` and `()` from making up an (empty)
+        // command substitution.
+        if let Some(Unquoted(Literal('$'))) = self.name.units.last() {
+            f.write_char(' ')?;
+        }
+        write!(f, "() {}", self.body)
     }
 }
 
